@@ -63,7 +63,8 @@ ASSUMPTIONS = [
     'n-1 more the float32 weight total',
     'sum tolerance: (n+2)*u*sum_i|p_i| + n*tiny; exact for integer results',
     'order independence is asserted within twice the mean/sum tolerance',
-    'clip domain: bound > 0; f32 values 2^-30<=|x|<=2^30 or 0 and bounds in '
+    'clip domain: bound > 0, or exactly 0 (everything is clipped to zero, a zero '
+    'tree stays a zero tree); f32 values 2^-30<=|x|<=2^30 or 0 and bounds in '
     '[2^-30,2^30] (the squared norm neither overflows nor underflows); trees '
     'with an f16 leaf: |x|<=2, i32 |x|<=24, bound >= 2^-8 (jax promotes '
     'int32+float16 to float16, so the squared norm is accumulated in f16); '
@@ -536,7 +537,11 @@ def run_clip(case):
     extra.append('regime:band')
   else:
     extra.append('regime:above')
-  if norm_in > 0:
+  if norm_in > 0 and bound == 0:
+    extra.append('bound_zero')
+    require(bool((o == 0).all()), 'clip:norm_exceeds_bound',
+            lambda: f'bound 0 but out={o.tolist()}')
+  elif norm_in > 0:
     s_ref = 1.0 if norm_in <= bound else bound / norm_in
     s_fit = float(np.dot(o, x) / np.dot(x, x))
     require(s_fit > 0, 'clip:direction_changed',
@@ -795,6 +800,8 @@ def clip_case(draw, tier):
       st.fixed_dictionaries({'rel': st.sampled_from(ratios)}),
       st.fixed_dictionaries({'rel': st.sampled_from(ratios)}),
       st.fixed_dictionaries({'abs': abs_b})))
+  if draw(st.integers(0, 15)) == 5:
+    bound = {'abs': 0.0}   # degenerate but valid: everything is clipped to zero
   return {'tree': spec, 'leaves': leaves, 'bound': bound,
           'leafkind': draw(st.sampled_from(['jax', 'jax', 'jax', 'numpy']))}
 
@@ -884,6 +891,8 @@ def clip_labels(case):
   out.append('bound:' + ('abs' if 'abs' in case['bound'] else 'rel'))
   if norm == 0:
     out.append('zero_tree')
+  if case['bound'].get('abs') == 0:
+    out.append('bound_zero')
   return out
 
 
